@@ -48,7 +48,7 @@ for k, what in (("exp", "literals with an exponent and no dot (1e1000, 1E2, -2e-
                 ("reject", "a sign alone, a literal ending in `.` or `e`, or a sign followed by a non-digit is a reported error - no unwrap on a failed integer parse"),
                 ("inf", "+Infinity / -Infinity read as the infinite floats"),
                 ("int", "an integer literal is handed to Num::from_str_radix whole (sign included, nothing after it), in base 10, and that function's answer is returned (the integer parser itself is core / num-bigint, replaced by a ghost stub)")):
-    ob(f"O-C07-parse-num-{k}", ["C07", "C05"] if k == "reject" else ["C07"], J, f"c07_parse_num_{k}", "parse_num (the JSON / XJON / CSV number reader) on literals run through hifijson's real slice lexer: " + what, ["jaq-json/src/read.rs::parse_num"], label="point", kind="point", composes_dependency=True, **({"stubs": ["from_str_radix"]} if k in ("int", "exp", "frac") else {}))
+    ob(f"O-C07-parse-num-{k}", ["C07", "C05"] if k == "reject" else ["C07"], J, f"c07_parse_num_{k}", "parse_num (the JSON / XJON / CSV number reader) on literals run through hifijson's real slice lexer: " + what, ["jaq-json/src/read.rs::parse_num"], label="point", kind="point", composes_dependency=True, **({"stubs": ["from_str_radix"]} if k in ("int", "exp", "frac", "reject") else {}))
 
 FU = "jaq-json/src/funs.rs::"
 ob("O-C12-contains-arr", ["C12"], J, "c12_contains_arrays", "Val::contains on arrays of integers at four points: every element of the argument is contained in some element of the input - also when the argument is longer than the input ([1,2] contains [1,1,2]); [3] is not contained; the empty array is contained in everything and contains only itself", [FU + "Val::contains"], label="point", kind="point")
